@@ -10,6 +10,7 @@ import Hive.Proofs.TypedCode
 import Hive.Proofs.TypedUpgrade
 import Hive.Proofs.TypedOwn
 import Hive.Proofs.TypedDirty
+import Hive.Proofs.TypedStoreCode
 /-!
 # C06 — TypedValue / TypedStore are transparent, error-faithful typed views
 
@@ -810,6 +811,38 @@ example : (execOp prog codec64 (fresh none) (.compute fun _ _ => .ok 5) { enc :=
   rw [execOp_eq_step]; decide
 
 end Code
+
+/-! ## The point methods of `TypedStore`, regenerated from the source
+
+`harness/c06/xlate_ts` translates the bodies of `TypedStore.Get/Has/Set/Delete/DeletePrefix/Clear` of the working tree into
+terms of `SCode.SStmt` (`Hive/Gen/C06_StoreCode.lean`). -/
+section StoreCode
+open Hive.Typed.SCode Hive.Gen.C06StoreCode
+
+/-- **The translated point methods of `TypedStore` are the model.**  For every key / value type, codec pair, raw store
+content, key, value, fault vector (store call, key / value encoder, decode positions) and store-error flavour (`w`: bare or
+wrapped, `ErrKeyNotFound` included), running the regenerated method body gives exactly the result, the resulting raw store
+and the call trace of the hand-written `sstep` (`Get/Has/Set/Delete`) resp. of `sdeletePrefix` / `sclear` — hence
+`C06_store_transparent`, `C06_store_failure_atomic`, `C06_store_set_get`, `C06_store_stored_is_last_written` are theorems
+about the code as translated.  The obligation pins which variable every call result lands in and which variable is handed
+on (key bytes vs value bytes), which store method is called, which error variable every guard tests and which value a
+`return` hands out.  (`Iterate` / `IterateKeys` are closures: hand-written model, skeleton obligations, differential run.) -/
+theorem C06_store_code_refines_model {K V : Type} [Inhabited K] [Inhabited V] (KC : Codec K) (VC : Codec V) (m : Store) (F : SFaults) (w : Bool) :
+    (∀ k, sexecOp w sprog KC VC m (.get k) F = some (sstep KC VC m (.get k) F)) ∧
+    (∀ k, sexecOp w sprog KC VC m (.has k) F = some (sstep KC VC m (.has k) F)) ∧
+    (∀ k v, sexecOp w sprog KC VC m (.set k v) F = some (sstep KC VC m (.set k v) F)) ∧
+    (∀ k, sexecOp w sprog KC VC m (.delete k) F = some (sstep KC VC m (.delete k) F)) ∧
+    (∀ pfx, sexecPass w KC VC sprog.deletePrefix m pfx F = sdeletePrefix m pfx F) ∧
+    (∀ pfx, sexecPass w KC VC sprog.clear m pfx F = sclear m F) :=
+  ⟨fun k => scode_get w KC VC m k F, fun k => scode_has w KC VC m k F, fun k v => scode_set w KC VC m k v F,
+   fun k => scode_delete w KC VC m k F, fun pfx => scode_deletePrefix w KC VC m pfx F, fun pfx => scode_clear w KC VC m pfx F⟩
+
+/-- Non-vacuity: the translated `Delete` on the variable-length key codec removes exactly the entry of that key, not
+the entries whose keys have its encoding as a prefix; a `Delete` body that calls `DeletePrefix` cannot be translated. -/
+example : (sexecOp false sprog codecVar codec64 [([1], be8 10), ([1, 0], be8 20)] (.delete 1) {}).map (·.st) =
+    some [([1, 0], be8 20)] := by decide
+
+end StoreCode
 
 /-! ## Non-vacuity: the hypotheses are satisfiable by concrete, non-trivial instances -/
 
